@@ -25,7 +25,7 @@ RULE = ("(cadence 1,2,3,5) x (run length 1..6 iterations, fixed and adaptive) x 
         "likelihood/prior (an exception, and a KeyboardInterrupt, raised inside call k) through Aspire.sample_posterior(checkpoint_path=file); payload-size "
         "sequences: three consecutive runs into the same file for every permutation of n_samples in {4,8,16} with a fault at "
         "every call of the last run, and all 27 size sequences over {tiny,large,medium} through dump_state; zuko route: "
-        "Aspire.resume_from_file on the file left by each fault, continued by the documented no-argument call and with the cadence override resume_kwargs={checkpoint_every: 2|3}. non-trivial = crash point with a checkpoint in the file; "
+        "Aspire.resume_from_file on the file left by each fault, continued from the file (resume_from=file) with the cadence checked on the rest of the run, by the documented no-argument call and with the cadence override resume_kwargs={checkpoint_every: 2|3}. non-trivial = crash point with a checkpoint in the file; "
         "distinct = distinct (config, crash point)")
 ASSUMPTIONS = [
     "interruption = Python exception at a user-callable boundary; torn writes inside HDF5 are not modelled",
@@ -53,7 +53,7 @@ def install_probe(mon_ref):
 MON = [None]
 
 
-def one_run(cfg, path, fault_at=None, n_samples=None, via="path", stamp="", fault_exc=InjectedFault):
+def one_run(cfg, path, fault_at=None, n_samples=None, via="path", stamp="", fault_exc=InjectedFault, resume=False):
     import _kernel
     import orng
     from aspire import Aspire
@@ -83,6 +83,8 @@ def one_run(cfg, path, fault_at=None, n_samples=None, via="path", stamp="", faul
         a.init_sampler = init_sampler
     kw = dict(cfg["opts"])
     kw["sampler_kwargs"] = {"n_steps": 1} if sampler == "smc" else {"nsteps": 1, "progress": False}
+    if resume:
+        kw["resume_from"] = path  # carry on from the checkpoint in the file, still checkpointing into it
     out = rh.Run()
     out.exception = None
     cb_log = []
@@ -194,6 +196,23 @@ def run_config(cfg):
             if last is not None and F.aspire.sampler.last_checkpoint_bytes != last:
                 rep.violation("C12/last_checkpoint_bytes-not-last-write", None, case)
             rep.outcomes.add(explorer.digest([e["iteration"] for e in flog]))
+            if flog:
+                # carry on from the file the fault left: the rest of the run writes at the iterations the cadence dictates
+                # and once at the end (also when only the final enlargement is left to do)
+                it0 = flog[-1]["iteration"]
+                del LOG[:]
+                RR = one_run(cfg, path, resume=True)
+                rlog = list(LOG)
+                caser = {"cfg": cfg, "crash_point": k, "stage": "resumed-from-the-file", "resumed_from_iteration": it0}
+                rep.case(explorer.digest([cfg, k, "resumed"]), nontrivial=True)
+                if RR.exception is not None:
+                    rep.violation(f"C12/resumed/run-raises/{RR.exception[0]}/{RR.exception[1] if len(RR.exception) > 2 else ''}", RR.exception, caser)
+                else:
+                    want_r = [i for i in range(it0 + 1, T + 1) if i % every == 0] + [T]
+                    if [e["iteration"] for e in rlog] != want_r:
+                        rep.violation(f"C12/cadence/resumed/every={every}", {"written_at": [e["iteration"] for e in rlog], "expected": want_r,
+                                                                               "resumed_from": it0, "iterations": T}, caser)
+                    check_file(rep, path, rlog[-1]["bytes"] if rlog else last, caser)
             os.remove(path)
             # the same crash point hit by a KeyboardInterrupt instead of an exception
             del LOG[:]
